@@ -36,7 +36,21 @@ def gen(rng, sc, n):
 def make_oracle(sc, meta):
     def oracle(line, out):
         if line not in meta:
-            return (None, None)
+            # corpus lines (no generator record): a flat `rt` line is still judged - every value given must be on the wire under its tag
+            # and the re-encoding of the decoded message must equal the wire
+            w = line.split()
+            if len(w) < 3 or w[0] != 'rt' or '[' in line:
+                return (None, None)
+            m = RT.match(out)
+            if not m:
+                return (False, None)
+            wire = cc.unhx(m.group(1))
+            for tok in w[2:]:
+                t, _, v = tok.lstrip('ht').partition('=')
+                val = b'' if v == '-' else bytes.fromhex(v)
+                if (b'\x01' + t.encode() + b'=' + val + b'\x01') not in wire:
+                    return (False, None)
+            return (m.group(3) == m.group(1), None)
         mt, items = meta[line]
         m = RT.match(out)
         if not m:
